@@ -315,7 +315,6 @@ theorem positions_in_bounds_halfline (n order : ℕ) (hn : n = 1 ∨ n = 2)
   · rw [hb] at hl; cases hl
   · rw [hb] at hu; cases hu
 
-set_option linter.unusedSimpArgs false in
 /-- **(c) The central stencil is used whenever it fits.** If `x ± (order/2)·h` respects the
 finite bounds (and `h ≥ 0`), the selected row is the central row 0 — so `derivative_exact_central`
 applies away from the bounds. -/
@@ -324,29 +323,212 @@ theorem central_when_fits (n order : ℕ) (hn : n = 1 ∨ n = 2) (ho : order = 2
     (hlo : ∀ l, b.lo = some l → l ≤ x - ((order / 2 : ℕ) : ℝ) * h)
     (hhi : ∀ u, b.hi = some u → x + ((order / 2 : ℕ) : ℝ) * h ≤ u) :
     rowOf cR n order x h b = 0 := by
-  rcases b with ⟨_ | l, _ | u⟩
-  · rcases hn with rfl | rfl <;> rcases ho with rfl | rfl <;>
-      simp [rowOf, offset, aboveHi, belowLo, pyIndex]
-  · have h1 := hhi u rfl
-    rcases hn with rfl | rfl <;> rcases ho with rfl | rfl <;>
-    ( norm_num at h1
+  rcases ho with rfl | rfl
+  · -- order 2: only `x ± h` is tested
+    rcases b with ⟨_ | l, _ | u⟩
+    · rcases hn with rfl | rfl <;> simp [rowOf, offset, aboveHi, belowLo, pyIndex]
+    · have h1 := hhi u rfl
+      norm_num at h1
+      have A1 : ¬ u < x + h := by linarith
+      rcases hn with rfl | rfl <;> simp [rowOf, offset, aboveHi, belowLo, pyIndex, A1]
+    · have h1 := hlo l rfl
+      norm_num at h1
+      have B1 : ¬ x - h < l := by linarith
+      rcases hn with rfl | rfl <;> simp [rowOf, offset, aboveHi, belowLo, pyIndex, B1]
+    · have h1 := hhi u rfl
+      have h2 := hlo l rfl
+      norm_num at h1 h2
+      have A1 : ¬ u < x + h := by linarith
+      have B1 : ¬ x - h < l := by linarith
+      rcases hn with rfl | rfl <;> simp [rowOf, offset, aboveHi, belowLo, pyIndex, A1, B1]
+  · -- order 4: `x ± h` and `x ± 2h` are tested
+    rcases b with ⟨_ | l, _ | u⟩
+    · rcases hn with rfl | rfl <;> simp [rowOf, offset, aboveHi, belowLo, pyIndex]
+    · have h1 := hhi u rfl
+      norm_num at h1
       have A1 : ¬ u < x + h := by linarith
       have A2 : ¬ u < x + 2 * h := by linarith
-      simp [rowOf, offset, aboveHi, belowLo, pyIndex, A1, A2])
-  · have h1 := hlo l rfl
-    rcases hn with rfl | rfl <;> rcases ho with rfl | rfl <;>
-    ( norm_num at h1
+      rcases hn with rfl | rfl <;> simp [rowOf, offset, aboveHi, belowLo, pyIndex, A1, A2]
+    · have h1 := hlo l rfl
+      norm_num at h1
       have B1 : ¬ x - h < l := by linarith
       have B2 : ¬ x - 2 * h < l := by linarith
-      simp [rowOf, offset, aboveHi, belowLo, pyIndex, B1, B2])
-  · have h1 := hhi u rfl
-    have h2 := hlo l rfl
-    rcases hn with rfl | rfl <;> rcases ho with rfl | rfl <;>
-    ( norm_num at h1 h2
+      rcases hn with rfl | rfl <;> simp [rowOf, offset, aboveHi, belowLo, pyIndex, B1, B2]
+    · have h1 := hhi u rfl
+      have h2 := hlo l rfl
+      norm_num at h1 h2
       have A1 : ¬ u < x + h := by linarith
       have A2 : ¬ u < x + 2 * h := by linarith
       have B1 : ¬ x - h < l := by linarith
       have B2 : ¬ x - 2 * h < l := by linarith
-      simp [rowOf, offset, aboveHi, belowLo, pyIndex, A1, A2, B1, B2])
+      rcases hn with rfl | rfl <;>
+        simp [rowOf, offset, aboveHi, belowLo, pyIndex, A1, A2, B1, B2]
+
+/-- **(d) Known defect: narrow two-sided bounds.** `lo = 0`, `hi = 1`, `x = 1/2`, `h = 3/8`,
+`n = 1`, `order = 4`: `lo ≤ x ≤ hi`, `hi − lo = 1 < 4h`, the tests `x+2h > hi` and `x−2h < lo`
+cancel in `offset`, the central row is used and `f` is evaluated at `5/4 > hi` (and `−1/4 < lo`).
+So the in-bounds clause of C19 is false for the code without a width hypothesis. -/
+theorem narrow_bounds_escape :
+    ∃ y ∈ positions cR 1 4 (1/2) (3/8) ⟨some 0, some 1⟩, ¬ InBounds ⟨some 0, some 1⟩ y := by
+  refine ⟨5/4, ?_, ?_⟩
+  · simp only [positions, rowOf, offset, aboveHi, belowLo, posTable, FIRST_DERIV_POS_4, cR]
+    norm_num [pyIndex]
+  · simp only [InBounds]; norm_num
+
+/-- The same instance on the executable `K = ℚ` model: the four evaluation points. -/
+theorem narrow_bounds_escape_rat :
+    positions (K := ℚ) id 1 4 (1/2) (3/8) ⟨some 0, some 1⟩ = [-1/4, 1/8, 7/8, 5/4] := by
+  decide +kernel
+
+/-- **The width hypothesis `(order + n − 1)·h ≤ hi − lo` is the weakest uniform one.** On `[0,1]`
+(`K = ℚ` model), for each `(n, order)` a step with `(order + n − 2)·h ≤ 1 < (order + n − 1)·h`
+and an `x ∈ [0,1]` whose first evaluation point is negative:
+(1,2): `h = 3/4`; (2,2): `h = 2/5`; (1,4): `h = 3/10`; (2,4): `h = 9/40`. -/
+theorem width_hypothesis_sharp :
+    positions (K := ℚ) id 1 2 (1/2) (3/4) ⟨some 0, some 1⟩ = [-1/4, 5/4] ∧
+    positions (K := ℚ) id 2 2 (7/10) (2/5) ⟨some 0, some 1⟩ = [-1/10, 3/10, 7/10] ∧
+    positions (K := ℚ) id 1 4 (4/5) (3/10) ⟨some 0, some 1⟩ = [-1/10, 1/5, 1/2, 4/5] ∧
+    positions (K := ℚ) id 2 4 (4/5) (9/40) ⟨some 0, some 1⟩
+      = [-1/10, 1/8, 7/20, 23/40, 4/5] := by
+  decide +kernel
+
+/-- **The hypothesis `h > 0` is needed** (the Python code never checks the sign of a user-supplied
+`dx`): with bounds `(0, ∞)`, `x = 0`, `h = −1` no test fires, the central row is used and `f` is
+evaluated at `−1` and `−2` (`K = ℚ` model). Exactness (`derivative_exact`) only needs `h ≠ 0`. -/
+theorem negative_step_escape :
+    positions (K := ℚ) id 1 4 0 (-1) ⟨some 0, none⟩ = [2, 1, -1, -2] := by
+  decide +kernel
+
+/-! ## T19.5  Linearity and shapes -/
+
+/-- `derivative` is linear in `f` (the selected row does not depend on `f`). -/
+theorem derivative_linear (f g : ℝ → ℝ) (a b' : ℝ) (n order : ℕ) (x h : ℝ) (b : Bounds ℝ) :
+    derivative cR (fun y => a * f y + b' * g y) n order x h b
+      = a * derivative cR f n order x h b + b' * derivative cR g n order x h b := by
+  unfold derivative
+  exact applyStencil_linear _ _ f g a b' n x h
+
+/-- `gradient` appends one axis of the length of the axis selection to the batch shape. -/
+theorem gradShape_spec (s : List ℕ) (a : ℕ) :
+    (gradShape s a).length = s.length + 1 ∧ (gradShape s a).dropLast = s
+      ∧ (gradShape s a).getLast? = some a := by
+  simp [gradShape]
+
+/-- `hessian` appends two axes (lengths of the two axis selections) to the batch shape. -/
+theorem hessShape_spec (s : List ℕ) (a b : ℕ) :
+    (hessShape s a b).length = s.length + 2 ∧ (hessShape s a b).take s.length = s
+      ∧ (hessShape s a b).drop s.length = [a, b] := by
+  simp [hessShape]
+
+/-- a normalised axis index is a valid axis. -/
+theorem normAxis_lt (d : ℕ) (i : ℤ) (j : ℕ) (hj : normAxis d i = some j) : j < d := by
+  unfold normAxis at hj
+  split_ifs at hj with hc
+  · have hd : 0 < d := by omega
+    cases hj
+    exact pyIndex_lt hd i
+
+/-- non-negative indices are kept. -/
+theorem normAxis_nonneg (d : ℕ) (i : ℤ) (h0 : 0 ≤ i) (h1 : i < d) :
+    normAxis d i = some i.toNat := by
+  unfold normAxis pyIndex
+  rw [if_pos ⟨by omega, h1⟩, Int.emod_eq_of_lt h0 h1]
+
+/-- negative indices count from the end: `i ↦ d + i`. -/
+theorem normAxis_neg (d : ℕ) (i : ℤ) (h0 : -(d : ℤ) ≤ i) (h1 : i < 0) :
+    normAxis d i = some ((d : ℤ) + i).toNat := by
+  unfold normAxis pyIndex
+  rw [if_pos ⟨h0, by omega⟩]
+  have : i % (d : ℤ) = (i + d) % (d : ℤ) := by simp
+  rw [this, Int.emod_eq_of_lt (by omega) (by omega), add_comm]
+
+/-- indices outside `[-d, d)` are rejected (the Python `assert`). -/
+theorem normAxis_none (d : ℕ) (i : ℤ) (h : i < -(d : ℤ) ∨ (d : ℤ) ≤ i) : normAxis d i = none := by
+  unfold normAxis
+  rw [if_neg (by omega)]
+
+/-! ## Non-vacuity / concrete instances -/
+
+/-- a cubic next to the lower bound (`x = lo = 0`, one-sided row 2 is used): direct evaluation of
+the model gives the exact derivative `-2`. -/
+example : derivative cR (fun y => y ^ 3 - 2 * y + 1) 1 4 0 (1/2) ⟨some 0, none⟩ = -2 := by
+  simp only [derivative, applyStencil, rowOf, offset, aboveHi, belowLo, posTable, coeffTable,
+    FIRST_DERIV_POS_4, FIRST_DERIV_COEFF_4, cR, hpow]
+  norm_num [pyIndex, show Int.toNat 2 = 2 from rfl]
+
+/-- the same on the executable `ℚ` model. -/
+example : derivative (K := ℚ) id (fun y => y ^ 3 - 2 * y + 1) 1 4 0 (1/2) ⟨some 0, none⟩ = -2 := by
+  decide +kernel
+
+open Polynomial in
+/-- `derivative_exact` has satisfiable hypotheses and gives the same number. -/
+example : derivative cR (fun y => (X ^ 3 - 2 * X + 1 : ℝ[X]).eval y) 1 4 0 (1/2) ⟨some 0, none⟩
+    = -2 := by
+  rw [derivative_exact 1 4 (by simp) (by simp) _ 0 (1/2) (by norm_num) (X ^ 3 - 2 * X + 1)
+    (by rw [positions_length 1 4 (by simp) (by simp)]; compute_degree)]
+  simp
+
+open Polynomial in
+/-- `central_when_fits` + `derivative_exact_central`: `X⁴` (degree = #points) at `x = 2`. -/
+example : derivative cR (fun y => (X ^ 4 : ℝ[X]).eval y) 1 4 2 (1/2) ⟨some 0, none⟩ = 32 := by
+  have hrow : rowOf cR 1 4 (2 : ℝ) (1/2) ⟨some 0, none⟩ = 0 :=
+    central_when_fits 1 4 (by simp) (by simp) 2 (1/2) _ (by norm_num)
+      (fun l hl => by cases hl; norm_num) (fun u hu => by cases hu)
+  rw [derivative_exact_central 1 4 (by simp) (by simp) _ 2 (1/2) (by norm_num) hrow (X ^ 4)
+    (by rw [positions_length 1 4 (by simp) (by simp)]; compute_degree)]
+  simp; norm_num
+
+example : applyStencil cR ((posTable 1 4).getD 2 []) ((coeffTable 1 4).getD 2 [])
+    (fun y => (Polynomial.X ^ (4 + 1 - 1) : Polynomial ℝ).eval y) 1 0 1
+    ≠ ((Polynomial.derivative)^[1] (Polynomial.X ^ (4 + 1 - 1) : Polynomial ℝ)).eval 0 :=
+  oneSided_not_exact 1 4 (by simp) (by simp) 2 (by norm_num) (by decide) 1 one_ne_zero
+
+open Polynomial in
+example : gradComp cR 4 (fun t => (X ^ 4 + 3 * X : ℝ[X]).eval t) (1/10) = 3 := by
+  rw [gradComp_exact 4 (by simp) (1/10) (by norm_num) (X ^ 4 + 3 * X) (by compute_degree)]
+  simp
+
+example : hessEntry cR 4 (fun s t => s ^ 1 * t ^ 1) (1/10) (1/5) = 1 := by
+  rw [hessEntry_monomial_exact 4 (by simp) 1 1 (by norm_num) _ _ (by norm_num) (by norm_num)]
+  simp
+
+example : hessEntry cR 4 (fun s t => s ^ 2 * t ^ 3) (1/10) (1/5) = 0 := by
+  rw [hessEntry_monomial_exact 4 (by simp) 2 3 (by norm_num) _ _ (by norm_num) (by norm_num)]
+  simp
+
+example : hessEntry cR 2
+    (fun s t => ∑ ab ∈ ({(1, 1), (2, 1), (0, 0)} : Finset (ℕ × ℕ)),
+      (fun ab : ℕ × ℕ => (ab.1 + 7 * ab.2 : ℝ)) ab * (s ^ ab.1 * t ^ ab.2)) (1/10) (1/5) = 8 := by
+  rw [hessEntry_poly_exact 2 (by simp) _ _ (by decide) _ _ (by norm_num) (by norm_num)]
+  norm_num
+
+open Polynomial in
+example : hessEntry cR 4 (fun s t => (X ^ 5 + 3 * X ^ 2 : ℝ[X]).eval (s + t)) (1/10) (1/10) = 6 := by
+  rw [hessEntry_diag_exact 4 (by simp) (1/10) (by norm_num) (X ^ 5 + 3 * X ^ 2)
+    (by compute_degree)]
+  simp; norm_num
+
+example : hessEntry cR 4 (fun s t => s ^ 3 * t ^ 3) 1 1 = -4 := by
+  rw [(hessEntry_mixed_deg6_wrong 1 1 one_ne_zero one_ne_zero).1]; norm_num
+
+/-- width exactly `4h` (`n = 1`, `order = 4`), `x` at the upper bound. -/
+example : ∀ y ∈ positions cR 1 4 1 (1/4) ⟨some 0, some 1⟩, (0 : ℝ) ≤ y ∧ y ≤ 1 :=
+  positions_in_bounds_wide 1 4 (by simp) (by simp) 1 (1/4) 0 1 (by norm_num) (by norm_num)
+    (by norm_num) (by norm_num)
+
+/-- WallGo's own usage: bounds `(0, ∞)`, `x` at the bound, any positive step. -/
+example : ∀ y ∈ positions cR 2 4 0 1 ⟨some 0, none⟩, InBounds ⟨some 0, none⟩ y :=
+  positions_in_bounds_halfline 2 4 (by simp) (by simp) 0 1 _ (by norm_num)
+    ⟨fun l hl => by cases hl; exact le_rfl, fun u hu => by cases hu⟩ (Or.inr rfl)
+
+example : rowOf cR 2 4 (1 : ℝ) (1/4) ⟨some 0, some 2⟩ = 0 :=
+  central_when_fits 2 4 (by simp) (by simp) 1 (1/4) _ (by norm_num)
+    (fun l hl => by cases hl; norm_num) (fun u hu => by cases hu; norm_num)
+
+example : normAxis 3 (-1) = some 2 ∧ normAxis 3 2 = some 2 ∧ normAxis 3 3 = none
+    ∧ normAxis 3 (-4) = none := by decide
+
+example : normAxis 3 (-3) = some 0 := by
+  have := normAxis_neg 3 (-3) (by norm_num) (by norm_num); simpa using this
 
 end Props.C19
